@@ -242,23 +242,23 @@ package argmapper
 
 //@ func newValueSetFromStruct
 //@   requires typ != nil
-//@   ensures  [rejects-double-pointer] imp(ptrDepth(typ) > 1, err != nil)
-//@   ensures  [rejects-non-struct] imp(kindof(baseType(typ)) != 25, err != nil)
-//@   ensures  [accepts] imp(ptrDepth(typ) <= 1 && kindof(baseType(typ)) == 25, err == nil)
-//@   ensures  [mirrors-struct] imp(err == nil, vsOK(result, baseType(typ)) && fresh(result) && result.structPointers == ptrDepth(typ) && !result.isLifted)
-//@   ensures  [error-means-nil] imp(err != nil, result == nil)
+//@   ensures  [rejects-double-pointer] imp(ptrDepth(typ) > 1, result1 != nil)
+//@   ensures  [rejects-non-struct] imp(kindof(baseType(typ)) != 25, result1 != nil)
+//@   ensures  [accepts] imp(ptrDepth(typ) <= 1 && kindof(baseType(typ)) == 25, result1 == nil)
+//@   ensures  [mirrors-struct] imp(result1 == nil, vsOK(result0, baseType(typ)) && fresh(result0) && result0.structPointers == ptrDepth(typ) && !result0.isLifted)
+//@   ensures  [error-means-nil] imp(result1 != nil, result0 == nil)
 //@   ensures  [frame] vsKept()
 //@   assigns  ValueSet, Value, valueInternal, []*Value, map[string]*Value, map[reflect.Type]*Value, map[string]string, []string, reflect.StructField, vpos
 //@   after "result.values = append(result.values, &value)" set vpos = update(vpos, i, len(result.values)-1)
 //@   loop 1 invariant typ != nil && baseType(typ) == baseType(old(typ)) && 0 <= ptrCount && ptrCount <= 255 && ptrDepth(old(typ)) == ptrDepth(typ) + ptrCount
 //@   loop 1 decreases ptrDepth(typ)
 //@   loop 2 invariant vsKept() && typ == baseType(old(typ)) && kindof(typ) == 25 && 0 <= i && i <= numField(typ) && ptrCount == ptrDepth(old(typ)) && ptrCount <= 1
-//@   loop 2 invariant result != nil && fresh(result) && result.structPointers == ptrCount && !result.isLifted && fresh(result.namedValues) && fresh(result.typedValues) && (fresh(result.values) || len(result.values) == 0)
+//@   loop 2 invariant result != nil && fresh(result) && result.structPointers == ptrCount && !result.isLifted && fresh(result.namedValues) && fresh(result.typedValues) && fresh(result.values)
 //@   loop 2 invariant forall(j, int, imp(0 <= j && j < len(result.values), fresh(result.values[j])))
 //@   loop 2 invariant vsPart(result, typ, i)
 //@   loop 2 decreases numField(typ) - i
 //@   loop 3 invariant vsKept() && typ == baseType(old(typ)) && kindof(typ) == 25 && 0 <= i && i < numField(typ) && ptrCount == ptrDepth(old(typ)) && ptrCount <= 1
-//@   loop 3 invariant result != nil && fresh(result) && result.structPointers == ptrCount && !result.isLifted && fresh(result.namedValues) && fresh(result.typedValues) && (fresh(result.values) || len(result.values) == 0)
+//@   loop 3 invariant result != nil && fresh(result) && result.structPointers == ptrCount && !result.isLifted && fresh(result.namedValues) && fresh(result.typedValues) && fresh(result.values)
 //@   loop 3 invariant forall(j, int, imp(0 <= j && j < len(result.values), fresh(result.values[j])))
 //@   loop 3 invariant vsPart(result, typ, i)
 //@   loop 3 invariant eligible(typ, i) && sf.Type == fieldType(typ, i) && tag == ftag(typ, i) && tag != "" && name == ite(splitAt(tag, ",", 0) != "", splitAt(tag, ",", 0), fieldName(typ, i))
